@@ -497,3 +497,15 @@ func TestC13(t *testing.T) {
 		st.Case(nt, map[string]interface{}{"history": c.hist}, classList(c.classes)...)
 	})
 }
+
+// TestC13Upgrade: the store migrations of the v1.2.0 upgrade are the other writer of the parameter
+// keys.  Generated legacy configurations (valid ones, and ones that the previous release accepted
+// and the current rules reject) go through the migrations; whatever they store must validate.
+func TestC13Upgrade(t *testing.T) {
+	st := StatsFor("C13")
+	rapid.Check(t, func(t *rapid.T) {
+		c16ParamsOnly = true
+		defer func() { c16ParamsOnly = false }()
+		runC16(t, st, NewVestWorld(nil), false, false)
+	})
+}
